@@ -896,6 +896,13 @@ func (env *Env) evalCall(e *Expr) CV {
 	case "wraps":
 		a, b := arg(0).V.(IfaceV), arg(1).V.(IfaceV)
 		return CV{V: Scalar{r.e.wraps(a, b)}, T: boolT}
+	case "implementsiface":
+		iv := arg(0).V.(IfaceV)
+		t := r.e.parseTypeName(env.pkg, e.Args[1].Str)
+		if t == nil {
+			panic(cerr("implementsiface: unknown type %q", e.Args[1].Str))
+		}
+		return CV{V: Scalar{tb.App("implements:"+typeKey(t), BoolSort, iv.Tag)}, T: boolT}
 	case "typeis":
 		iv := arg(0).V.(IfaceV)
 		return CV{V: Scalar{tb.Eq(iv.Tag, r.e.typeTagByName(env.pkg, e.Args[1].Str))}, T: boolT}
@@ -976,6 +983,29 @@ func (env *Env) evalCall(e *Expr) CV {
 		a := tb.BoundVar("a", BV64)
 		return CV{V: Scalar{tb.Forall([]*Term{a}, tb.Implies(tb.Not(tb.ULt(tb.Sub(a, v.Off), n)),
 			tb.Eq(tb.Select(tb.Select(env.cur.BH, v.Base), a), tb.Select(tb.Select(env.old.BH, v.Base), a))))}, T: boolT}
+	case "maphas", "mapget":
+		m := arg(0)
+		mt, ok := m.T.Underlying().(*types.Map)
+		if !ok {
+			panic(cerr("%s: not a map", name))
+		}
+		h := r.scalar(m.V)
+		key := r.mapKeyOf(env.cur, arg(1).V, mt.Key())
+		val, has := r.mapLookupVal(env.cur, mt, h, key, "")
+		has = tb.And(tb.Ne(h, tb.BVI(64, 0)), has)
+		if name == "maphas" {
+			return CV{V: Scalar{has}, T: boolT}
+		}
+		return CV{V: val, T: mt.Elem()}
+	case "loopdec":
+		// loopdec(N): the value the decreases measure of (enclosing) loop N had at its header
+		n := int(e.Args[0].Lit.Int64())
+		for _, li := range r.loops {
+			if li.Ordinal == n && li.decAtHeader != nil {
+				return CV{V: Scalar{li.decAtHeader}, T: it}
+			}
+		}
+		panic(cerr("loopdec(%d): loop has no measure recorded yet", n))
 	case "cowned":
 		switch v := arg(0).V.(type) {
 		case SliceV:
